@@ -20,7 +20,8 @@ RULE = ("45% relation structures: 1-3 conjuncts x 1-3 alternatives, every atom w
         "versions / operators / architectures / profiles drawn half from pools of ordinary and odd-but-valid values "
         "(one-character names, '+', '.', '-', ':' and '~' in versions, negated architectures, several groups) and half "
         "at random over the boundary characters of their class (a z A Z 0 9 and the punctuation the class allows), absent "
-        "parts given as None or as a missing key; one in five structures is then broken in exactly one way (empty "
+        "parts given as None or as a missing key, and the keys of two relation dicts in three INSERTED in a random order "
+        "(the permutation is stored with the atom, so it replays and shrinks); one in five structures is then broken in exactly one way (empty "
         "lists, upper-case or '<' ',' in a profile, blank in a name, '!' at the start of a plain name, ...) - outside "
         "the property's domain, compared with the model only.  20% free-form strings through parse_relations: wf "
         "renderings with the blanks around every token varied, single-edit mutants of them, random strings over the "
@@ -73,6 +74,7 @@ def _sanitize(s):
 # ---------------------------------------------------------------------------
 # structures (JSON form): atom = {"name","aq","ver":[op,v]|None,"arch":[[en,a]..]|None,"restr":[[[en,p]..]..]|None}
 
+KEYS = ["name", "archqual", "version", "arch", "restrictions"]     # the parser's key order
 _ALNUM = "azAZ09bQ5"
 _NAME_CH = _ALNUM + ".+-"
 _AQ_CH = _ALNUM + "-"
@@ -113,6 +115,12 @@ def _atom(rng, mask=None):
     if mask & 8:
         a["restr"] = [[_signed(rng, PROFILES, _PROFILE_CH) for _ in range(rng.randint(1, 3))]
                       for _ in range(rng.randint(1, 3))]
+    # insertion order of the keys of the relation dict handed to PkgRelation.str (indices into KEYS);
+    # one atom in three is built in the parser's own order
+    if rng.random() < 0.67:
+        order = list(range(len(KEYS)))
+        rng.shuffle(order)
+        a["ord"] = order
     return a
 
 
@@ -142,6 +150,9 @@ def _break(rng, rels, how):
         if how.startswith(k + "_"):
             fresh = _atom(rng, m | rng.randrange(16))
             fresh["name"] = a["name"]
+            fresh.pop("ord", None)
+            if "ord" in a:
+                fresh["ord"] = a["ord"]
             a = rels[i][j] = fresh
     if how == "arch_empty":
         a["arch"] = []
@@ -355,21 +366,25 @@ def from_json(j):
 # implementation driver
 
 def _to_py(rels, omit):
+    """The relation dicts handed to PkgRelation.str.  Keys are INSERTED in the order the atom's "ord" gives
+    (default: the parser's order); absent parts are None-valued keys, or missing keys when [omit]."""
     from debian.deb822 import PkgRelation
     out = []
     for alts in rels:
         o = []
         for a in alts:
-            d = {"name": a["name"]}
-            for key, val in (("archqual", a["aq"]),
-                             ("version", None if a["ver"] is None else tuple(a["ver"])),
-                             ("arch", None if a["arch"] is None else
-                              [PkgRelation.ArchRestriction(en, x) for en, x in a["arch"]]),
-                             ("restrictions", None if a["restr"] is None else
-                              [[PkgRelation.BuildRestriction(en, x) for en, x in g] for g in a["restr"]])):
-                if val is None and omit:
+            vals = {"name": a["name"], "archqual": a["aq"],
+                    "version": None if a["ver"] is None else tuple(a["ver"]),
+                    "arch": None if a["arch"] is None else
+                    [PkgRelation.ArchRestriction(en, x) for en, x in a["arch"]],
+                    "restrictions": None if a["restr"] is None else
+                    [[PkgRelation.BuildRestriction(en, x) for en, x in g] for g in a["restr"]]}
+            d = {}
+            for i in a.get("ord") or range(len(KEYS)):
+                key = KEYS[i]
+                if vals[key] is None and omit:
                     continue
-                d[key] = val
+                d[key] = vals[key]
             o.append(d)
         out.append(o)
     return out
@@ -509,8 +524,10 @@ def classify(case, obs):
             return "rel/odd:%s/%s" % (case["how"], "err:" + obs["err"] if "err" in obs else "warn%d" % min(obs["warnings"], 2))
         rels = case["rels"]
         masks = sorted({_mask(a) for alts in rels for a in alts})
-        return "rel/%s/%dx%d/%s" % ("wf" if oracle_wf(rels) else "non-wf", len(rels), max(len(x) for x in rels),
-                                    masks[0] if len(masks) == 1 else "mixed")
+        perm = any(a.get("ord") and a["ord"] != sorted(a["ord"]) for alts in rels for a in alts)
+        return "rel/%s/%dx%d/%s/%s" % ("wf" if oracle_wf(rels) else "non-wf", len(rels), max(len(x) for x in rels),
+                                       masks[0] if len(masks) == 1 else "mixed",
+                                       "keys-permuted" if perm else "keys-parser-order")
     if k == "parse":
         return "parse/%s/%s" % (case["src"], "err:" + obs["err"] if "err" in obs else "warn%d" % min(obs["warnings"], 3))
     if k == "leaf":
@@ -576,6 +593,10 @@ def shrink(case):
                 r = copy.deepcopy(rels)
                 r[i][j]["name"] = a["name"][:1]
                 yield dict(case, rels=r)
+            if a.get("ord"):
+                r = copy.deepcopy(rels)
+                del r[i][j]["ord"]
+                yield dict(case, rels=r)
     if case.get("omit"):
         yield dict(case, omit=False)
 
@@ -594,7 +615,10 @@ def describe(case, obs):
         return {"call": "s1 = PkgRelation.str(rels); parsed = PkgRelation.parse_relations(s1) with warnings recorded; "
                         "s2 = PkgRelation.str(parsed); via = Packages({'Depends': s1}).relations['depends'] and "
                         "Sources({'Build-Depends': s1}).relations['build-depends'] give the same",
-                "rels": case["rels"], "absent_parts_as_missing_keys": case.get("omit", False), "observed": obs,
+                "rels": case["rels"], "absent_parts_as_missing_keys": case.get("omit", False),
+                "dict_key_insertion_order": [[[KEYS[i] for i in a.get("ord") or range(len(KEYS))] for a in alts]
+                                             for alts in case["rels"]],
+                "observed": obs,
                 "in_domain": oracle_wf(case["rels"]),
                 "specified": "for a structure of the domain: parsed == rels, warnings == 0, s2 == s1, via == True"}
     return {"call": {"parse": "PkgRelation.parse_relations(s), then PkgRelation.str of the result",
